@@ -506,6 +506,90 @@ static C14Plan c14_from_spec(const std::map<std::string, std::string> &m) {
   return pl;
 }
 
+// C14, long histories: after 65 600 further calls of the same operation a query is answered the way a fresh object
+// answers it, and every one of those calls is answered like the first (counters that wrap, caches that fill up).
+// One object, one client, small inputs; both queries are first answered in isolation (reference).
+static int run_c14_long(Prng &r, uint64_t pair_index) {
+  // (kind, operation) pairs are enumerated, one per long history, so that a sweep visits every pair
+  static const int ops[] = {C_LOCATE, C_EXTRACT, C_LOCPREFIX, C_EXTPREFIX, C_LOCSUBSTR, C_EXTSUBSTR, C_LOCRANK, C_EXTRANK, C_TABLE};
+  static std::vector<std::pair<int, int>> pairs;
+  if (pairs.empty()) { Params dp; for (int k = 0; k < K_COUNT; k++) for (int o : ops) if (supported(k, callop_to_op(o), dp)) pairs.push_back({k, o}); }
+  const int kind = pairs[pair_index % pairs.size()].first, op = pairs[pair_index % pairs.size()].second;
+  Triple t; int guard = 0;
+  do { t = draw_triple(r, kind); } while ((t.ss.v.size() > 40 || t.ss.total() > 700 || t.ss.v.size() < 3 || !supported(kind, callop_to_op(op), t.p)) && ++guard < 400);
+  g_kinds = kind_name(t.kind);
+  if (guard >= 400) { emit("precondition_failed", "no_small_set_drawn", ""); return 0; }
+  Source src; src.loaded = t.kind == K_XBW ? true : r.chance(1, 2); src.opt = takes_load_option(t.kind) ? (uint)r.range(1, 3) : 1;
+  QueryPool q = make_pool(t.ss.v, r, 16);
+  auto mk = [&](size_t which) {
+    std::vector<Call> v; Call c; c.op = op; c.handle = 0;
+    auto pick = [&](size_t n) { return which % n; };
+    switch (op) {
+    case C_LOCATE: c.arg = q.members[pick(q.members.size())]; break;
+    case C_EXTRACT: c.id = q.ids[pick(q.ids.size())]; break;
+    case C_LOCRANK: case C_EXTRANK: c.id = q.ranks[pick(q.ranks.size())]; break;
+    case C_LOCPREFIX: case C_EXTPREFIX: c.arg = q.prefixes[pick(q.prefixes.size())]; break;
+    case C_LOCSUBSTR: case C_EXTSUBSTR: c.arg = q.substrs[pick(q.substrs.size())]; break;
+    default: break;
+    }
+    v.push_back(c);
+    if (op == C_LOCPREFIX || op == C_EXTPREFIX || op == C_LOCSUBSTR || op == C_EXTSUBSTR || op == C_TABLE) {
+      Call n; n.op = C_NEXT; n.handle = 0; n.count = 1 << 20; v.push_back(n);
+      Call cl; cl.op = C_CLOSE; cl.handle = 0; v.push_back(cl);
+    }
+    return v;
+  };
+  // A and C are asked at chosen positions among the filler query B (positions count the queries issued to this object):
+  // A at 3, 259 and 65 795 -- the same query 2^8 and 2^16 queries after it was last asked, nothing but B in between;
+  // C at 65 536 for the first time.  That is where time stamps, generation counters and the like come round again.
+  size_t pool = op == C_LOCATE ? q.members.size() : op == C_EXTRACT ? q.ids.size() : (op == C_LOCRANK || op == C_EXTRANK) ? q.ranks.size()
+              : (op == C_LOCPREFIX || op == C_EXTPREFIX) ? q.prefixes.size() : (op == C_LOCSUBSTR || op == C_EXTSUBSTR) ? q.substrs.size() : 1;
+  pool = std::min<size_t>(pool, 10);
+  const int reps = 65800;
+  g_spec += "|long=1|triple=" + triple_str(t) + "|loaded=" + std::to_string((int)src.loaded) + "|opt=" + std::to_string(src.opt) + "|reps=" + std::to_string(reps);
+  g_shape = std::string(src.loaded ? "loaded" : "built") + "/long/" + op_name(callop_to_op(op));
+  g_refstate = src.loaded ? "loaded" : "built";
+  begin("ref", "isolated-reference");
+  StringDictionary *d = make_object(t, src, r);
+  if (!d) { emit("precondition_failed", "object_unavailable", "build/load returned NULL for " + triple_str(t)); return 0; }
+  // candidates are answered in isolation first; the first three that survive become A, B (filler) and C
+  std::vector<std::vector<Call>> cand; std::vector<Call> all; std::vector<size_t> start;
+  for (size_t i = 0; i < pool; i++) { cand.push_back(mk(i)); start.push_back(all.size()); all.insert(all.end(), cand.back().begin(), cand.back().end()); }
+  Probe pc = probe_script(d, all, std::string(kind_name(t.kind)) + (src.loaded ? " loaded" : " built"));
+  std::vector<size_t> ok;
+  for (size_t i = 0; i < pool; i++) { bool good = true; for (size_t j = 0; j < cand[i].size(); j++) if (pc.skip[start[i] + j]) good = false; if (good) ok.push_back(i); }
+  if (ok.empty()) { delete d; emit("precondition_failed", "reference_call_did_not_survive", triple_str(t)); return 0; }
+  // order: the filler is the last survivor, A the first, C the middle one (they coincide when few survive)
+  size_t ia = ok.front(), ib = ok.back(), ic = ok[ok.size() / 2];
+  std::vector<Call> A = cand[ia], B = cand[ib], C = cand[ic], AB = A; AB.insert(AB.end(), B.begin(), B.end()); AB.insert(AB.end(), C.begin(), C.end());
+  g_spec += "|a=" + script_str(A) + "|b=" + script_str(B) + "|c=" + script_str(C);
+  Probe pr; pr.run.digests.clear();
+  for (size_t j = 0; j < A.size(); j++) pr.run.digests.push_back(pc.run.digests[start[ia] + j]);
+  for (size_t j = 0; j < B.size(); j++) pr.run.digests.push_back(pc.run.digests[start[ib] + j]);
+  for (size_t j = 0; j < C.size(); j++) pr.run.digests.push_back(pc.run.digests[start[ic] + j]);
+  for (size_t i = 0; i < AB.size(); i++) g_obs.add("ans:long." + std::to_string(i), pr.run.digests[i]);
+  begin("var", "long-history");
+  arm_watchdog(120.0);
+  ClientState cs;
+  for (int n = 1; n <= reps; n++) {
+    const std::vector<Call> &Q = (n == 3 || n == 259 || n == 65795) ? A : n == 65536 ? C : B;
+    size_t base = (&Q == &A) ? 0 : (&Q == &B) ? A.size() : A.size() + B.size();
+    for (size_t i = 0; i < Q.size(); i++) {
+      CallResult cr = exec_call(d, cs, Q[i]);
+      if (cr.digest != pr.run.digests[base + i]) {
+        emit("violation", "answer_depends_on_history", "C14 " + triple_str(t) + (src.loaded ? " loaded: " : " built: ") + call_str(Q[i]) + " as query number " + std::to_string(n) + " of this object is answered differently than by a fresh object");
+        return 1;
+      }
+    }
+  }
+  cs.close_all();
+  begin("var", "destroy-after-long-history");
+  delete d;
+  g_stats["long_histories"] = 1; g_stats["calls_compared"] += (long)reps * (long)B.size();
+  emit("ok", "", "");
+  return 0;
+}
+
 // ====================================================================================================
 // C08 — save is pure and deterministic
 // ====================================================================================================
@@ -520,8 +604,8 @@ static int run_c08(Prng &r, int kind_forced, const std::string &ops_override) {
   std::string ops = ops_override;
   if (ops.empty()) {
     int n = (int)r.range(1, 6);
-    static const char alphabet[] = "SSBIRLLGK";
-    for (int i = 0; i < n; i++) ops += alphabet[r.below(9)];
+    static const char alphabet[] = "SSBIRLLGKN";
+    for (int i = 0; i < n; i++) ops += alphabet[r.below(10)];
   }
   uint opt = takes_load_option(t.kind) ? (uint)r.range(1, 3) : 1;
   g_spec += "|triple=" + triple_str(t) + "|ops=" + ops + "|opt=" + std::to_string(opt) + "|battery=" + std::to_string((int)with_battery);
@@ -612,6 +696,39 @@ static int run_c08(Prng &r, int kind_forced, const std::string &ops_override) {
       if (img != img1) { emit("violation", "rebuild_differs", "C08.d " + triple_str(t) + " two builds from the same input: " + first_diff(img1, img)); return 1; }
       break;
     }
+    case 'N': {
+      // another dictionary of the same kind (other input) lives, is saved, reloaded, saved again and dies in between:
+      // the images of this lineage are a function of its own content, not of what else the process has saved
+      Triple nt = make_triple((uint32_t)((t.set + 1 + r.below((uint64_t)std::max(1, g_catalogue - 1))) % (uint64_t)g_catalogue), t.kind, (int)r.below(PARAM_GRID));
+      uint nopt = takes_load_option(t.kind) ? (uint)r.range(1, 3) : 1;
+      begin("ref", "noise-dictionary-probe");
+      fflush(g_out);
+      pid_t pid = fork();
+      if (pid == 0) {
+        g_in_child = true; g_death_spec = nullptr; death_info_update();
+        int nul = open("/dev/null", O_WRONLY); dup2(nul, 2);
+        arm_watchdog(5.0);
+        StringDictionary *n1 = build_dict(nt.kind, nt.ss.v, nt.p);
+        std::string ni = save_image(n1, 4096) + std::string(16, '\0'); delete n1;
+        ChunkPolicy whole; whole.small = 0; whole.big = 0;
+        LoadOut nl = load_image(nt.kind, ni, 0, whole, nopt, false);
+        if (!nl.d) _exit(1);
+        std::string ni2 = save_image(nl.d, 4096); delete nl.d;
+        _exit(0);
+      }
+      int status = 0; waitpid(pid, &status, 0);
+      if (!(WIFEXITED(status) && WEXITSTATUS(status) == 0)) { g_stats["noise_dictionary_skipped"]++; break; }
+      begin("var", "noise-dictionary-saved-in-between");
+      {
+        StringDictionary *n1 = build_dict(nt.kind, nt.ss.v, nt.p);
+        std::string ni = save_image(n1, 4096) + std::string(16, '\0'); delete n1;
+        ChunkPolicy whole; whole.small = 0; whole.big = 0;
+        LoadOut nl = load_image(nt.kind, ni, 0, whole, nopt, false);
+        if (nl.d) { std::string ni2 = save_image(nl.d, 4096); delete nl.d; }
+      }
+      g_stats["noise_dictionaries"]++;
+      break;
+    }
     case 'K': {
       // the internal buffer reservation (MEMALLOC knob) is not a build parameter: it must not show in the image
       begin("var", "rebuild-with-other-reservation");
@@ -663,6 +780,16 @@ static int run_c08(Prng &r, int kind_forced, const std::string &ops_override) {
         g_stats["iterators_open_across_first_save"]++;
       }
       g_obs.add("img:" + tag + ".resave", dig_bytes(img2));
+      // what a loaded object writes is a function of the image it was loaded from: a second, independent load of
+      // the same image (whatever the process did in between) re-saves to the same bytes
+      {
+        static std::map<int, std::string> first_resave; static uint64_t first_resave_run = ~0ULL;
+        if (first_resave_run != g_run_index) { first_resave.clear(); first_resave_run = g_run_index; }
+        auto fr = first_resave.find((int)generic);
+        if (fr == first_resave.end()) first_resave[(int)generic] = img2;
+        else if (fr->second != img2) { emit("violation", "resave_of_loaded_object_depends_on_history", "C08.e " + triple_str(t) + " two loads of the same image re-save differently: " + first_diff(fr->second, img2)); return 1; }
+        else g_stats["resave_repeatable"]++;
+      }
       g_stats["resave_byte_identical"] += (img2 == img1);
       g_stats["resave_total"]++;
       begin("var", "second-save-of-loaded-object");
@@ -938,6 +1065,7 @@ static int run_mode(const std::string &mode, uint64_t base, uint64_t index, cons
     return run_c14_plan(pl, rx, mode == "C16");
   }
   if (m == "C14") {
+    if (mode == "C14" ? index % 16 == 5 : r.chance(1, 40)) return run_c14_long(r, mode == "C14" ? index / 16 : r.next());
     C14Plan pl = gen_c14(r, false);
     g_spec += "|" + c14_spec(pl);
     return run_c14_plan(pl, rx, false);
